@@ -207,7 +207,8 @@ class CT(Term):
         a, b = sorted([self, o], key=lambda t: t.key() if isinstance(t, Term) else repr(t))
         return self._mk(op, a, b)
 
-    def __eq__(self, o): return isinstance(o, Term) and o.key() == self.key()
+    def __eq__(self, o): return self._mk("eq", self, o)
+    def __ne__(self, o): return self._mk("not", self._mk("eq", self, o))
     def __lt__(self, o): return self._mk("lt", self, o)
     def __le__(self, o): return self._mk("le", self, o)
     def __gt__(self, o): return self._mk("gt", self, o)
@@ -216,20 +217,38 @@ class CT(Term):
     __rand__ = __and__
     def __or__(self, o): return self._sorted("or", o)
     __ror__ = __or__
-    def __invert__(self): return self._mk("not", self)
+    def __invert__(self): return self.args[0] if self.op == "not" else self._mk("not", self)
     def __mul__(self, o): return self._sorted("mul", o)
     __rmul__ = __mul__
     def __add__(self, o): return self._sorted("add", o)
     __radd__ = __add__
     def __sub__(self, o): return self._mk("sub", self, o)
-    def __rsub__(self, o): return self._mk("sub", o, self)
+    def __rsub__(self, o):
+        if o in (1, 1.0) and self.op == "astype" and self.args[1] == "float":  # 1 - flag is the flag of the negation
+            return self._mk("astype", ~self.args[0], "float")
+        return self._mk("sub", o, self)
     def __truediv__(self, o): return self._mk("div", self, o)
     def __rtruediv__(self, o): return self._mk("div", o, self)
 
     def notnull(self): return self._mk("notna", self)
     notna = notnull
-    def isnull(self): return self._mk("isna", self)
+    def isnull(self): return self._mk("not", self._mk("notna", self))
     isna = isnull
+
+    def mask(self, cond, other=None):
+        if other is not None and not (isinstance(other, float) and other != other):
+            raise Unsupported("mask() with a replacement value on a recording column")
+        return self._mk("blank", self, cond)
+
+    def where(self, cond, other=None):
+        if other is not None and not (isinstance(other, float) and other != other):
+            raise Unsupported("where() with a replacement value on a recording column")
+        return self._mk("blank", self, ~cond if isinstance(cond, CT) else cond)
+
+    def dropna(self): return self._mk("dropna", self)
+
+    @property
+    def empty(self): return self._mk("empty", self)
 
     def sum(self, *a, **k):
         if a or k:
@@ -245,7 +264,10 @@ class CT(Term):
     def max(self): return self._mk("max", self)
     def any(self): return self._mk("any", self)
     def all(self): return self._mk("all", self)
-    def astype(self, t): return self if t in (int, float, "int", "float") and self.op in ("sum",) else self._mk("astype", self, getattr(t, "__name__", t))
+    def astype(self, t):
+        name = getattr(t, "__name__", t)
+        name = {"float64": "float", "int64": "int"}.get(name, name)
+        return self if name in ("int", "float") and self.op in ("sum",) else self._mk("astype", self, name)
 
     def _abs_cast(self, name):
         # int() / float() of a total of whole day counts is that total
@@ -305,6 +327,138 @@ class CFrame(Stub):
     @property
     def index(self):
         return CT("index", oracle=self._oracle)
+
+
+class SFrame(Stub):
+    """A frame whose columns are terms over the columns it started with; stores and .loc[mask, col] = nan are applied in order."""
+
+    def __init__(self, cols: Dict[str, Any], oracle=None, events=None):
+        self._cols, self._oracle, self._events = dict(cols), oracle, events if events is not None else []
+
+    @classmethod
+    def start(cls, columns, oracle=None):
+        return cls({c: CT(f"col:{c}", oracle=oracle) for c in columns}, oracle)
+
+    def __getitem__(self, c):
+        if isinstance(c, str):
+            if c not in self._cols:
+                raise InterpRaised("KeyError", c)
+            return self._cols[c]
+        raise Unsupported("frame[...] with a non-column key on the state frame")
+
+    def __setitem__(self, c, v):
+        if not isinstance(c, str):
+            raise Unsupported("frame[...] = ... with a non-column key on the state frame")
+        self._cols[c] = v
+
+    def __getattr__(self, name):
+        if name.startswith("_"):
+            raise AttributeError(name)
+        if name in self.__dict__.get("_cols", {}):
+            return self._cols[name]
+        raise AttributeError(name)
+
+    @property
+    def columns(self):
+        return list(self._cols)
+
+    @property
+    def index(self):
+        return CT("index", oracle=self._oracle)
+
+    @property
+    def loc(self):
+        return _SLoc(self)
+
+    def copy(self, deep=True):
+        return SFrame(self._cols, self._oracle, self._events)
+
+    def drop(self, columns=None, **k):
+        if columns is None or k:
+            raise Unsupported("drop() other than drop(columns=[...]) on the state frame")
+        return SFrame({c: v for c, v in self._cols.items() if c not in ([columns] if isinstance(columns, str) else list(columns))}, self._oracle, self._events)
+
+
+class _SLoc(Stub):
+    def __init__(self, fr):
+        self._fr = fr
+
+    def __setitem__(self, k, v):
+        if not (isinstance(k, tuple) and len(k) == 2 and isinstance(k[0], CT) and isinstance(k[1], str)):
+            raise Unsupported("frame.loc[...] = ... other than loc[mask, column] on the state frame")
+        if not (isinstance(v, float) and v != v):
+            raise Unsupported("frame.loc[mask, column] = <a value other than NaN> on the state frame")
+        self._fr._cols[k[1]] = self._fr[k[1]]._mk("blank", self._fr[k[1]], k[0])
+
+
+def _hourly_criteria_inputs(chk, cls_info, rep: bool, with_ghi: bool):
+    """Interpret <hourly data class>._check_data_sufficiency: what frame, flags and check does the criteria object get?"""
+    from engine.absint import Oracle, explore
+    fi = chk.res.find_method(cls_info, "_check_data_sufficiency")
+    if fi is None:
+        raise AnalysisError(f"{cls_info.key}._check_data_sufficiency vanished")
+    oracle = Oracle()
+    cols = ["observed", "temperature"] + (["ghi"] if with_ghi else [])
+    cols = cols + [f"interpolated_{c}" for c in cols]
+
+    class _NP(Stub):
+        nan = float("nan")
+        NaN = nan
+
+    def run():
+        rec: Dict[str, Any] = {"made": [], "checks": []}
+
+        class _HSC(Stub):
+            def __init__(self_, **kw):
+                rec["made"].append(kw)
+                self_.disqualification, self_.warnings = ["DQ"], ["W"]
+
+            def check_sufficiency_baseline(self_):
+                rec["checks"].append("baseline")
+
+            def check_sufficiency_reporting(self_):
+                rec["checks"].append("reporting")
+        it = Interp(step_limit=50_000)
+        stand = {"HourlySufficiencyCriteria": StubCall(lambda *a, **k: _HSC(**k) if not a else (_ for _ in ()).throw(Unsupported("positional criteria arguments"))), "np": _NP(), "numpy": _NP()}
+        me = AbsObj({cls_info.name, "_HourlyData"}, df=SFrame.start(cols, oracle), is_electricity_data=True)
+        env = ModuleEnv(chk.repo, fi.module, it, stand)
+        try:
+            res = Function(fi.node, env, it)(me)
+        except InterpRaised as e:
+            return {"raises": e.exc_name}
+        return {"made": rec["made"], "checks": rec["checks"], "returns": res}
+    try:
+        return fi, explore(run, oracle)
+    except Unsupported as e:
+        raise AnalysisError(f"{fi.key}: uses an operation outside the modelled subset: {e}")
+
+
+def _judge_hourly_inputs(trace, o, rep: bool, with_ghi: bool) -> List[str]:
+    if "raises" in o:
+        return [f"raises {o['raises']}"]
+    if len(o["made"]) != 1 or o["checks"] != ["reporting" if rep else "baseline"]:
+        return [f"must build one criteria object and run its {'reporting' if rep else 'baseline'} checks; built {len(o['made'])}, ran {o['checks']}"]
+    kw = o["made"][0]
+    fr = kw.get("data")
+    if not isinstance(fr, SFrame):
+        return ["the criteria object is not given the sufficiency frame as data="]
+    bad = []
+    def blank(c): return f"blank(col:{c}, eq(col:interpolated_{c}, 1))"
+    tb = blank("temperature")
+    want = {"temperature": tb, "temperature_not_null": f"astype(notna({tb}), 'float')", "temperature_null": f"astype(not(notna({tb})), 'float')"}
+    if with_ghi:
+        want["ghi"] = blank("ghi")
+    empty_usage = any(v for t, v in trace if t == f"empty(dropna({blank('observed')}))")
+    if not (rep and empty_usage):
+        want["observed"] = blank("observed")
+    for c, w in want.items():
+        got = fr._cols.get(c)
+        got = got.key() if isinstance(got, Term) else repr(got)
+        if got != w:
+            bad.append(f"column `{c}` handed to the criteria is {got}; it must be {w} (filled-in values are not observations; the coverage flags describe the blanked temperature)")
+    if rep and empty_usage and "observed" in fr._cols:
+        bad.append("a reporting frame without any usage must be handed over without the usage column")
+    return bad
 
 
 def _valid_days_terms(chk, base, cv, rep):
@@ -704,3 +858,15 @@ def run(chk):
         r2.require(not bad, f"definition|valid-days|{'reporting' if rep else 'baseline'}", cv.where(),
                    f"valid days must be (usage present, baseline only) & (hourly temperature coverage of the row > 0.9), weighted by each row's day count; "
                    f"interpreted ({'reporting' if rep else 'baseline'}): {bad} (expected {({k: want[k] for k in bad})})", sample={"reporting": rep, "totals": sorted(want)})
+
+    # -- what the hourly data classes hand to the criteria (interpreted on a state frame)
+    for cname, rep in (("HourlyBaselineData", False), ("HourlyReportingData", True)):
+        ci = chk.repo.cls(HOURLY_DATA, cname)
+        for with_ghi in (False, True):
+            fi, outs = _hourly_criteria_inputs(chk, ci, rep, with_ghi)
+            bad = []
+            for trace, o in outs:
+                bad += [(m, [t for t, v in trace if v]) for m in _judge_hourly_inputs(trace, o, rep, with_ghi)]
+            r2.require(not bad, f"inputs|{cname}|ghi={with_ghi}", fi.where(),
+                       f"{cname}._check_data_sufficiency: {bad[0][0] if bad else ''}" + (f" (when {bad[0][1]})" if bad and bad[0][1] else ""),
+                       sample={"class": cname, "ghi": with_ghi, "paths": len(outs)})
